@@ -470,6 +470,84 @@ pub fn run_c16(ctx: &Ctx) -> i32 {
             }
         }
     });
+    // (3c) frames another encoder could have written: the header of the base's first frame (CRC-8
+    // intact), every subframe a FIXED predictor of order 0..=4 whose warm-up sits at the limits of
+    // the width and whose residual is coded with 5-bit Rice parameters up to 30 (or 4-bit ones up
+    // to 14) and remainders near 2^28 - sample values far outside the width once decoded - with a
+    // correct CRC-16, behind a STREAMINFO that carries a non-zero MD5. Whatever the parser does
+    // with what it read (checking, decoding, hashing), it must do it without panicking; nothing
+    // is decoded here afterwards (Decode on such a stream is not the parser, cf. DESIGN 6.8).
+    let b7 = Arc::clone(&bases);
+    let nf = ctx.tier.pick(600u64, 30_000);
+    run_cases(ctx, "foreign", nf, &mut out, |idx, out| {
+        let mut rng = Rng::for_case(ctx.seed, "C16.foreign", idx);
+        let base = &b7[(idx as usize) % b7.len()];
+        let rep = refdec::decode_stream(&base.bytes);
+        let Some(f0) = rep.frames.first() else { return };
+        let (o, _) = base.frames[0];
+        let (hl, _) = base.hdr[0];
+        let n = f0.header.block_size;
+        let bps = rep.info.bps as usize;
+        let widths: Vec<usize> = match f0.header.assign {
+            refdec::Assign::Indep(c) => vec![bps; c as usize],
+            refdec::Assign::LeftSide => vec![bps, bps + 1],
+            refdec::Assign::SideRight => vec![bps + 1, bps],
+            refdec::Assign::MidSide => vec![bps, bps + 1],
+        };
+        let mut m = crate::bitmodel::BitVec::new();
+        for &w in &widths {
+            let order = rng.usize_below(5).min(n);
+            m.push_lsbs(0, 1);
+            m.push_lsbs(0b001000 | order as u64, 6);
+            m.push_lsbs(0, 1);
+            let lim = 1i64 << (w - 1);
+            for _ in 0..order {
+                let any = rng.range(-lim, lim - 1);
+                let v = *rng.pick(&[lim - 1, -lim, 0, lim - 1, -lim, any]);
+                m.push_lsbs((v as u64) & ((1u64 << w) - 1), w);
+            }
+            let method5 = rng.chance(2, 3);
+            m.push_lsbs(u64::from(method5), 2);
+            let po = if n % 4 == 0 && n / 4 >= order.max(1) { rng.usize_below(3) } else { 0 };
+            m.push_lsbs(po as u64, 4);
+            let parts = 1usize << po;
+            let plen = n >> po;
+            for part in 0..parts {
+                let p = if method5 { *rng.pick(&[30usize, 29, 28, 24, 16, 5]) } else { *rng.pick(&[14usize, 13, 8, 0]) };
+                m.push_lsbs(p as u64, if method5 { 5 } else { 4 });
+                let sign_pattern = rng.usize_below(3);
+                for t in (part * plen).max(order)..(part + 1) * plen {
+                    m.push_zeros(rng.usize_below(2));
+                    m.push_lsbs(1, 1);
+                    if p > 0 {
+                        // remainders near the top of the field; the zigzag bit decides the sign
+                        let top = ((1u64 << p) - 1) & !1;
+                        let sign = match sign_pattern {
+                            0 => 0,
+                            1 => 1,
+                            _ => (t & 1) as u64,
+                        };
+                        m.push_lsbs((top - 2 * (rng.next_u64() % 4).min(top / 2)) | sign, p);
+                    }
+                }
+            }
+        }
+        m.align();
+        let mut data = base.bytes[..base.audio_offset].to_vec();
+        let mut fr = base.bytes[o..o + hl].to_vec();
+        fr.extend_from_slice(&m.bytes);
+        let c16 = refdec::crc16(&fr);
+        fr.extend_from_slice(&c16.to_be_bytes());
+        data.extend_from_slice(&fr);
+        out.evaluations += 1;
+        out.distinct.insert((1 << 57) | idx);
+        let r = catch(|| flacenc::component::parser::stream::<NomErr<'_>>(&data).is_ok());
+        match r {
+            Ok(true) => out.count("foreign_frames_accepted"),
+            Ok(false) => out.count("foreign_frames_refused"),
+            Err(p) => out.violation(format!("C16|panic|{}|foreign", p.site()), format!("a frame of FIXED subframes with 5-bit Rice parameters and remainders near 2^28 (valid CRCs): {} (base: {})", p.short(), base.desc), json!({"monitor": "C16", "sub": "foreign", "index": idx, "seed": ctx.seed, "tier": ctx.tier.name(), "case": {"base": base.desc}})),
+        }
+    });
     // (4) random byte strings and random splices of valid frames
     let n = ctx.tier.pick(600_000, 40_000_000);
     let b5 = Arc::clone(&bases);
@@ -591,7 +669,7 @@ pub fn run_c16(ctx: &Ctx) -> i32 {
     });
     let fin = Finish {
         level: "fault_enumeration",
-        rule: "small emitted streams (one per subframe type / width / stereo mode, 2-4 frames of 32-192 samples) are corrupted: EVERY single-bit flip of the frame region (all bases), every burst pattern of length 2..=8 with first and last bit set (127 patterns) at every bit offset, every non-zero XOR byte at every byte, truncation at every byte, metadata blocks of every type tag 0..=127 with STREAMINFO-shaped and other payloads (and every bit flip of such a metadata region), plus random byte strings / splices / fake headers / random edits; parser::stream must return Err or Ok without panicking, and an accepted altered stream must Decode to the original audio (anything else = altered content accepted); distinct = distinct (base, position, pattern)",
+        rule: "small emitted streams (one per subframe type / width / stereo mode, 2-4 frames of 32-192 samples) are corrupted: EVERY single-bit flip of the frame region (all bases), every burst pattern of length 2..=8 with first and last bit set (127 patterns) at every bit offset, every non-zero XOR byte at every byte, truncation at every byte, metadata blocks of every type tag 0..=127 with STREAMINFO-shaped and other payloads (and every bit flip of such a metadata region), frames of FIXED subframes coded with 5-bit Rice parameters up to 30 and remainders near 2^28 behind valid CRCs (parser only), plus random byte strings / splices / fake headers / random edits; parser::stream must return Err or Ok without panicking, and an accepted altered stream must Decode to the original audio (anything else = altered content accepted); distinct = distinct (base, position, pattern)",
         assumptions: vec!["truncation exactly at a frame boundary yields a valid shorter stream and may be accepted".into()],
         exhaustive: Some(ctx.only.is_none()),
         floors: vec![("mutated inputs rejected".into(), out.stats.get("rejected").copied().unwrap_or(0), 10_000)],
